@@ -323,3 +323,44 @@ func (s *Solver) fallback(extra *Term, vars []*Term, wantModel bool) (SatResult,
 	}
 	return Unknown, nil
 }
+
+// solver pool: z3 processes are reused across explorations (start-up dominates small explorations)
+var solverPool = make(chan *Solver, 64)
+
+func acquireSolver(timeoutMs int) *Solver {
+	select {
+	case s := <-solverPool:
+		if s.dead {
+			s.Close()
+			return NewSolver(timeoutMs)
+		}
+		s.TimeoutMs = timeoutMs
+		return s
+	default:
+		return NewSolver(timeoutMs)
+	}
+}
+
+func releaseSolver(s *Solver) {
+	if s.dead {
+		s.Close()
+		return
+	}
+	select {
+	case solverPool <- s:
+	default:
+		s.Close()
+	}
+}
+
+// CloseSolvers terminates all pooled solver processes.
+func CloseSolvers() {
+	for {
+		select {
+		case s := <-solverPool:
+			s.Close()
+		default:
+			return
+		}
+	}
+}
